@@ -16,7 +16,7 @@ RULE = ("npy: files written by write_npy (shapes with 1-5 axes) and by numpy (al
         "be rejected by Array::read_npy and by the model (exhaustive per file; quick: files capped at 400 bytes of data, "
         "thorough: all); text: every removal and insertion of one value token, every single-entry edit of the shape, an "
         "empty value line; on the binary (a slice): view, fold and stat on the damaged file exit non-zero, print no "
-        "spectrum / statistics row, and do not panic. non-trivial = damage inside the value region")
+        "spectrum / statistics row, and do not panic. non-trivial = damage inside the value region; files whose data begins with spaces / line feeds (the bytes that pad and end the header)")
 
 
 def check(rep, tier, seed):
@@ -26,6 +26,11 @@ def check(rep, tier, seed):
             [[3], [2, 3], [1], [4, 1, 2], [2, 2, 2, 2], [5, 3], [1, 1, 1, 1, 7], [10], [3, 3, 3], [2, 5, 2], [6, 6], [1, 9], [9, 1], [2, 2, 2, 2, 2]]:
         vals = [random_bits(rng) for _ in range(elements(sh))]
         files.append(("sfs " + fmt(sh), "npyw %s %s" % (fmt(sh), ",".join(tok(v) for v in vals))))
+    # files whose data BEGINS with the bytes that pad and end an npy header (spaces, line feed): where the header stops and
+    # the data starts is fixed by HEADER_LEN alone
+    for sh, first in (([3], 0x4037000000000020), ([2, 2], 0x403700000000000a), ([3], 0x4037000000002020), ([2], 0x0a0a0a0a0a0a0a0a), ([1], 0x2020202020202020), ([4], 0x40370000000a2020)):
+        vals = [first] + [random_bits(rng) for _ in range(elements(sh) - 1)]
+        files.append(("sfs %s, data starting with 0x%02x" % (fmt(sh), first & 0xff), "npyw %s %s" % (fmt(sh), ",".join(tok(v) for v in vals))))
     written = run_impl([f[1] for f in files])
     blobs = [(lab, bytes.fromhex(w)) for (lab, _), w in zip(files, written) if all(c in "0123456789abcdef" for c in w)]
     # numpy-written files of other dtypes / header versions
@@ -84,6 +89,10 @@ def check(rep, tier, seed):
                 j = rng.randrange(len(vals))
                 tcases.append("read %s" % text_spectrum(sh, vals[:j] + [junk] + vals[j + 1:]).hex()); tlabels.append(("junk token %r in place of value %d" % (junk, j), False))
                 tcases.append("read %s" % (text_spectrum(sh, vals) + junk.encode() + b"\n").hex()); tlabels.append(("junk token %r on a later line" % junk, False))
+        # characters Unicode counts as numeric are no digits of a shape: next to it, inside it or after it they make the header
+        # unparsable (they are not trimmed away like other decoration)
+        for a, b in ((b">\n", ">\u00b2\n"), (b">\n", ">\u0663\n"), (b"=<", "=<\u0663/"), (b">\n", "/\u2167>\n"), (b"#SHAPE", "#SHAPE\u00bd"), (b">\n", "\U0001d7d9>\n"), (b"=<", "=<\u0969")):
+            tcases.append("read %s" % good.replace(a, b.encode("utf-8"), 1).hex()); tlabels.append(("unicode numeric %r in the header line" % b, False))
         for j in range(len(sh)):
             for delta in (1, -1, 5):
                 sh2 = list(sh); sh2[j] = max(0, sh2[j] + delta)
